@@ -180,6 +180,9 @@ pub struct C12Scenario {
     /// every unlink/rmdir below the output directory takes this long (a slow disk)
     #[serde(default)]
     pub unlink_delay_us: Option<u32>,
+    /// (k, m): after the k-th completed run the configuration's max_retained_runs is rewritten to m
+    #[serde(default)]
+    pub relimit: Option<(usize, usize)>,
 }
 
 pub struct C12;
@@ -212,7 +215,7 @@ fn gen_c12_huge(rng: &mut Rng) -> C12Scenario {
     };
     let big = RunStep { opts: RunOpts { sequences: vec!["big".into()], ..Default::default() }, behav: vec![], rejected: false, edits: vec![], cp_update_before: false };
     let runs = vec![small(1, &spec), big, small(3, &spec)];
-    C12Scenario { spec, runs, rand_seed: rng.next_u64() % 1_000_000, checkpointed: false, unlink_delay_us: None }
+    C12Scenario { spec, runs, rand_seed: rng.next_u64() % 1_000_000, checkpointed: false, unlink_delay_us: None, relimit: None }
 }
 
 fn gen_c12(seed: u64, idx: usize, tier: Tier) -> C12Scenario {
@@ -269,7 +272,15 @@ fn gen_c12(seed: u64, idx: usize, tier: Tier) -> C12Scenario {
         }
     }
     let unlink_delay_us = if rng.chance(1, 5) { Some(*rng.pick(&[2_000u32, 5_000])) } else { None };
-    C12Scenario { spec, runs, rand_seed: rng.next_u64() % 1_000_000, checkpointed, unlink_delay_us }
+    let rand_seed = rng.next_u64() % 1_000_000;
+    // one history in six changes the retention limit part-way (lowered or raised)
+    let relimit = if rng.chance(1, 6) && runs.len() >= 4 {
+        let cands: Vec<usize> = [1usize, 2, 3, 4, 6].iter().cloned().filter(|&m| m != max).collect();
+        Some((rng.range(1, runs.len() - 2), *rng.pick(&cands)))
+    } else {
+        None
+    };
+    C12Scenario { spec, runs, rand_seed, checkpointed, unlink_delay_us, relimit }
 }
 
 impl Property for C12 {
@@ -295,7 +306,12 @@ impl Property for C12 {
             Err(e) => return Outcome::skip(&format!("world: {}", e)),
         };
         w.set_rand_seed(sc.rand_seed);
-        let max = sc.spec.max_retained_runs;
+        let mut max = sc.spec.max_retained_runs;
+        let mut max_ever = max;
+        // after a change of the limit the slot a run gets is the implementation's business: the checks then
+        // only use what the statement says (latest run; each of the last `max` runs is shown by some --id;
+        // never more directories than the largest limit that was ever in force)
+        let mut general = false;
         let mut out = Outcome::default();
         if let Some(us) = sc.unlink_delay_us {
             w.knobs.push(("FSFAULT_ROOT".into(), w.out_dir().to_string_lossy().into_owned()));
@@ -323,7 +339,7 @@ impl Property for C12 {
                     out.skipped = Some("reject_not_rejected(other property)".into());
                     return out;
                 }
-                if serial == 0 {
+                if serial == 0 || general {
                     continue;
                 }
                 // everything recorded for the completed runs must still be there
@@ -417,6 +433,29 @@ impl Property for C12 {
                 }
                 Err(e) => out.violate("logs_latest", "error", format!("after run {}: {}", serial, e)),
             }
+            let dirs: Vec<String> = std::fs::read_dir(w.out_dir().join("run")).map(|r| r.flatten().map(|e| e.file_name().to_string_lossy().into_owned()).collect()).unwrap_or_default();
+            if general {
+                // the ring that existed when the limit changed is the implementation's business; once `max` runs
+                // have completed under the new limit they are a history of their own and each must be shown by
+                // some id; until then only the latest run is demanded
+                let since = serial - sc.relimit.map(|r| r.0).unwrap_or(0);
+                let first = if since >= max { serial - max + 1 } else { serial };
+                let ids: Vec<usize> = dirs.iter().filter_map(|d| d.parse().ok()).collect();
+                let shown: Vec<_> = ids.iter().filter_map(|n| show_logs(&w, Some(*n)).ok()).collect();
+                for j in first..=serial {
+                    out.sub_evals += 1;
+                    if !shown.iter().any(|g| diff_blocks(g, &history[j - 1]).is_none()) {
+                        out.violate("logs_by_id", "after_limit_change:no_id_shows_run", format!("after run {} (limit now {}): no `log show --id N` (N in {:?}) shows run {}, one of the last {} runs", serial, max, ids, j, max));
+                    }
+                }
+                if dirs.len() > max_ever {
+                    out.violate("slot_count", "after_limit_change:too_many", format!("after run {}: {} run directories {:?}; the largest max_retained_runs ever in force is {}", serial, dirs.len(), dirs, max_ever));
+                }
+                if !out.violations.is_empty() {
+                    break;
+                }
+                continue;
+            }
             // each of the last `max` runs by id
             let first = if serial > max { serial - max + 1 } else { 1 };
             for j in first..=serial {
@@ -432,7 +471,6 @@ impl Property for C12 {
                 out.sub_evals += 1;
             }
             // retention
-            let dirs: Vec<String> = std::fs::read_dir(w.out_dir().join("run")).map(|r| r.flatten().map(|e| e.file_name().to_string_lossy().into_owned()).collect()).unwrap_or_default();
             if dirs.len() > max {
                 out.violate("slot_count", "too_many", format!("after run {}: {} run directories {:?}, max_retained_runs = {}", serial, dirs.len(), dirs, max));
             }
@@ -453,6 +491,19 @@ impl Property for C12 {
             if !out.violations.is_empty() {
                 break;
             }
+            if let Some((k, m)) = sc.relimit {
+                if serial == k {
+                    w.spec.max_retained_runs = m;
+                    if w.write_config().is_err() {
+                        return Outcome::skip("config rewrite failed");
+                    }
+                    out.trace.push(format!("max_retained_runs {} -> {} after run {}", max, m, serial));
+                    out.fault("retention_limit_changed_inside_the_history", 1);
+                    max = m;
+                    max_ever = max_ever.max(m);
+                    general = true;
+                }
+            }
         }
         let wraps = serial / max;
         out.nontrivial = wraps >= 2 && shrunk_slot;
@@ -463,10 +514,22 @@ impl Property for C12 {
     fn shrink(&self, v: &Value) -> Vec<Value> {
         let mut out = vec![];
         if let Ok(sc) = serde_json::from_value::<C12Scenario>(v.clone()) {
+            if sc.relimit.is_some() {
+                let mut s = sc.clone();
+                s.relimit = None;
+                out.push(serde_json::to_value(s).unwrap());
+            }
             for i in (0..sc.runs.len()).rev() {
                 if sc.runs.len() > 1 {
                     let mut s = sc.clone();
                     s.runs.remove(i);
+                    if let Some((k, m)) = s.relimit {
+                        // keep the change at the same place of the remaining history
+                        let completed_before = sc.runs[..i].iter().filter(|r| !r.rejected).count();
+                        if completed_before < k && !sc.runs[i].rejected {
+                            s.relimit = Some((k.saturating_sub(1).max(1), m));
+                        }
+                    }
                     out.push(serde_json::to_value(s).unwrap());
                 }
             }
@@ -483,7 +546,7 @@ impl Property for C12 {
         out
     }
     fn rule(&self) -> String {
-        "histories of 3-6 x max_retained_runs completed runs (max in {1,2,3,5}), each run with a fresh choice of commands, explicit targets, outputs tagged with the run's serial number, one quarter with a failing child; after every run: result show = printed document, log show = exactly that run's non-empty logs, log show --id for each of the last max runs, directory count, pointer = slot ring model. Non-trivial = >= 2 wrap-arounds and a slot whose new occupant has a strict subset of the old occupant's directories; distinct = (max, per-run commands/targets/failure)".into()
+        "histories of 3-6 x max_retained_runs completed runs (max in {1,2,3,5}; one history in six rewrites max_retained_runs part-way - afterwards: latest run exact, each of the last max runs shown by some --id once max runs have completed under the new limit, never more directories than the largest limit ever in force), each run with a fresh choice of commands, explicit targets, outputs tagged with the run's serial number, one quarter with a failing child; after every run: result show = printed document, log show = exactly that run's non-empty logs, log show --id for each of the last max runs, directory count, pointer = slot ring model. Non-trivial = >= 2 wrap-arounds and a slot whose new occupant has a strict subset of the old occupant's directories; distinct = (max, per-run commands/targets/failure)".into()
     }
     fn components(&self) -> Value {
         components()
